@@ -1,8 +1,9 @@
 """C18 - behaviour depends only on the discriminant-to-name map, not on declaration order or repr (DESIGN.md 5).
   permutation : families of declarations of one value set in several orders - the derive's expansion (every item
                 except the enum itself) must be token-identical across the family; identical code = identical behaviour
-  repr        : families over every fixed-width repr that can hold the value set - expansions token-identical after
-                replacing the repr, its unsigned companion and literal suffixes by placeholders; and every member
+  repr        : families over every repr that can hold the value set - expansions token-identical after replacing the
+                repr, its unsigned companion and literal suffixes by placeholders (usize / isize members: identical to
+                the u64 / i64 member rewritten to the pointer-sized names); and every member
                 passes all item rules (which is what makes the width-parametric arithmetic safe)
   width table : src/parser/mod.rs maps each repr to the unsigned type of the same width (read with syn)"""
 import json, os, re
@@ -81,10 +82,26 @@ def main(tier, seed, t0):
                 ctx.ok(kind + '-identity', n=len(ms) - 1)
         else:
             ok = True
+            # pointer-sized members: `usize` is also the index type of the derived code, so instead of placeholders the
+            # 64-bit member of the same signedness is rewritten to the pointer-sized names and compared literally
+            for m in ms:
+                r = m['decl']['repr']
+                if not r.endswith('size') or m['id'] not in items:
+                    continue
+                twin = next((x for x in ms if x['decl']['repr'] == r[0] + '64' and x['id'] in items), None)
+                if twin is None:
+                    continue
+                want = [re.sub(r'(?<=[0-9])i64\b|\bi64\b', 'isize', re.sub(r'(?<=[0-9])u64\b|\bu64\b', 'usize', t)) for t in items[twin['id']]]
+                d = first_diff(want, items[m['id']])
+                if d:
+                    ref_m = twin
+                    report('repr-identity', m, d); ok = False; break
             for strict in (True, False):
+                if not ok:
+                    break
                 groups = {}
                 for m in ms:
-                    if m['id'] not in items:
+                    if m['id'] not in items or m['decl']['repr'].endswith('size'):
                         continue
                     g = (m['decl']['repr'][0] if strict else 'all')
                     groups.setdefault(g, []).append(m)
@@ -143,4 +160,4 @@ def main(tier, seed, t0):
                          coverage_extra={'families': n_f, 'family_members': len(ex['instances']), 'cache_hit': [est.hit, st.hit], 'tree': st.tree},
                          nontrivial_rule='distinct (family, member) pairs',
                          assumptions=['token-identical derived items behave identically (the enum item itself is the only difference and the derived code refers to variants by name)',
-                                      'pointer-sized reprs are compared through the item rules only (their name coincides with the index type usize)'])
+                                      'usize / isize members are compared with the u64 / i64 member of the family after renaming (their name coincides with the index type usize, so placeholders would hide index casts)'])
